@@ -52,7 +52,23 @@ def XfOp.judge (prop : String) (op : XfOp) (out : String) : Expect :=
     let soloVals := if solo == "solo:" then [] else ((solo.drop 5).toString.splitOn ",")
     let anyErr := soloVals.any fun s => s.endsWith "=!err"
     if soloVals.any isPanicStr then .pred false "ExtractFields must not panic" else
-    if soloVals.any (· == "!refused") then .noPanic else    -- the response is refused as a whole (no register view)
+    if soloVals.any (· == "!refused") then
+      -- the response is refused as a whole: legitimate only when there is no register view of the payload
+      (if !op.coils && op.payload.length ≥ 2 && op.payload.length % 2 == 0 && op.start.toNat + op.payload.length / 2 ≤ 65536 then
+        .pred false "a response that holds whole registers was refused as a whole"
+       else if op.coils && op.payload.length ≥ 1 then .pred false "a coil response with a payload was refused as a whole"
+       else .noPanic) else
+    -- register fields: the value of a field alone is the specified decoding of its registers
+    let specBad := if op.coils || op.start.toNat + op.payload.length / 2 > 65536 then none else
+      (List.zip op.fields soloVals).findSome? fun (f, sv) =>
+        match f.acc with
+        | none => if sv == s!"{f.name}=!err" then none else some s!"field {f.name} has no decoding, got {sv}"
+        | some a =>
+          let want := match Spec.access 9 op.payload op.start.toNat a f.addr.toNat with
+            | some v => s!"{f.name}={v.str'}"
+            | none => s!"{f.name}=!err"
+          if sv == want then none else some s!"field {f.name} alone: expected {want} (the specified decoding of its registers), got {sv}"
+    if let some w := specBad then .pred false w else
     let want :=
       if anyErr && !op.lenient then "failed "
       else (if anyErr then "some " else "all ") ++ ",".intercalate soloVals
